@@ -29,6 +29,8 @@ def norm_scalar(v):
         return v
     if isinstance(v, (bool, int, str)):
         return v
+    if isinstance(v, (pd.Series, pd.DataFrame, pd.Index)):
+        return f"<nested {type(v).__name__} len={len(v)}>"      # a container stored as an element: never repr() it (may be self-referential)
     try:
         if pd.isna(v):
             return "NaN"
@@ -39,7 +41,10 @@ def norm_scalar(v):
             return norm_scalar(v.item())
         except Exception:  # noqa: BLE001
             pass
-    return _ADDR.sub("", repr(v))
+    try:
+        return _ADDR.sub("", repr(v))
+    except RecursionError:
+        return f"<unrepresentable {type(v).__name__}>"
 
 
 def canon_pandas(obj):
